@@ -12,14 +12,16 @@ Import ListNotations.
 Local Open Scope Z_scope.
 
 (** ** The model's hook is the one the Go source describes.
-    tools/gotocoq/ics20hook regenerates from x/aggregate/keeper/ibc_hook.go and x/aggregate/ibc_middleware.go the
-    statements of Keeper.OnRecvPacket that matter (early-return guards classified by data flow, ConvertCoin with its
-    context and message, write(), what every return statement returns), the arguments of IBCDenom and the statement
-    shape of the middleware; Proofs/Ics20Source.v normalises that list ([shape_of]) to the two parameters of the hook
-    model, and the model instantiated with THOSE parameters is the [hook] all theorems below are about.  A `return
-    nil`, a dropped guard, a conversion on the parent context, a write() before the error test, a message with another
-    amount / denomination / receiver or a reshaped middleware breaks this obligation; renaming variables, deleting
-    the dead IBCDenom error branch or reordering the guards does not. *)
+    tools/gotocoq/ics20hook executes Keeper.OnRecvPacket, the callbacks of IBCMiddleware and those of ibc.Module
+    SYMBOLICALLY on the Go AST (closures and same-package helpers inlined, nil-ness of errors tracked per path) and
+    regenerates their decision trees: tests classified by data flow, ConvertCoin with its context and message, write(),
+    what every path returns, the arguments of IBCDenom; Proofs/Ics20Source.v flattens the hook's tree to its guard
+    list and normalises it ([shape_of]) to the two parameters of the hook model, and the model instantiated with THOSE
+    parameters is the [hook] all theorems below are about.  A `return nil` on a path, a dropped guard, a conversion on
+    the parent context, a write() before the error test, a message with another amount / denomination / receiver, a
+    hook called after a failed transfer breaks this obligation; renaming, deleting the dead IBCDenom error branch,
+    reordering the guards, moving code into closures / helper functions, `switch` for `if`, nested for early-return
+    forms do not. *)
 Theorem C16_source_is_model :
   src_shape_ok = true /\
   forall state sha256 decode parse_int from_bech32 is_registered convert,
@@ -28,11 +30,15 @@ Theorem C16_source_is_model :
 Proof. split; [vm_compute; reflexivity|intros; reflexivity]. Qed.
 Print Assumptions C16_source_is_model.
 
-(** the normal form the regenerated statement list has, spelled out *)
+(** the normal form the regenerated decision trees have, spelled out: the hook is the comb "decode error / amount /
+    receiver length / [dead IBCDenom error] / not registered -> return ack; ConvertCoin on the cache context with the
+    message built from the packet; its error -> return ack; write(); return ack", the middleware and ibc.Module are the
+    expected trees *)
 Theorem C16_source_shape :
-  shape_of src_hook = Some (true, SrcAck) /\ src_hook_ack_reassigned = false /\ src_hook_denom_from_dest = true /\
-  src_hook_write_calls = 1%nat /\ src_mw_recv_shape = true /\ src_mw_timeout_inherited = true /\
-  src_mw_ack_shape = true /\ src_keeper_ack_noop = true.
+  shape_of (flatten src_hook) = Some (true, SrcAck) /\ src_hook_ack_reassigned = false /\ src_hook_denom_from_dest = true /\
+  src_mw_recv = expected_mw_recv /\ src_mw_ack = expected_mw_ack /\ src_mw_timeout_inherited = true /\
+  src_keeper_ack_noop = true /\
+  src_module_recv = expected_module_recv /\ src_module_ack = expected_module_err /\ src_module_timeout = expected_module_err.
 Proof. vm_compute. repeat split; reflexivity. Qed.
 Print Assumptions C16_source_shape.
 
